@@ -14,7 +14,7 @@ def run(ctx):
     RR.hit_filter(ctx, "R12.c")
     RR.position_mapping(ctx, "R12.c")
     RS.memo_coherence(ctx, "R12.d")
-    RS.consistency_group(ctx, "R12.d")
+    RS.consistency_group(ctx, "R12.d", frame=False)
     RR.priorities(ctx, "R12.e", "R12.e", match_before_rating=False)
     RR.directions(ctx, "R12.e", comps, roles=("rating",))
     RC20.buffer_rules(ctx, None, None, "R20.f")
